@@ -213,10 +213,15 @@ pub fn is_args_in_token(token: &str) -> bool { crate::scripting::verif_export::i
 /// the pest parse tree of a script text as nested (rule, text, children); Err = syntax error
 pub fn parse_script(text: &str) -> Result<String, String> {
     fn dump(p: pest::iterators::Pair<crate::parsers::locust::Rule>, out: &mut String) {
+        // as the interpreter reads it: trimmed text; pairs whose trimmed text is empty are skipped by run_exp
+        let text = p.as_str().trim();
+        if text.is_empty() {
+            return;
+        }
         out.push('(');
         out.push_str(&format!("{:?}", p.as_rule()));
         out.push(' ');
-        for b in p.as_str().as_bytes() {
+        for b in text.as_bytes() {
             out.push_str(&format!("{:02x}", b));
         }
         for c in p.into_inner() {
